@@ -31,6 +31,14 @@ def check_profile(ctx, rule_prefix='C03', only_ends=False):
         # declare positivity before re-evaluating so that Abs normalises identically in code and spec
         w = w_spec(x, L, alpha)
         res, ev, fi, x, y, Pv, alpha, L = kernel_eval(ctx, m)
+        from .common import split_branches, post_processed
+        clamped = [(pth, post_processed(val)) for pth, val in split_branches(res) if post_processed(val)]
+        if clamped:
+            pth, head = clamped[0]
+            ctx.fail(f'{rule_prefix}.1', f"kernel ('{m}'): the displacement follows the documented profile on every path",
+                     f"when {[str(q)[:100] for q in pth] or 'always'} the result is passed through {head}(...): the displacement is no longer one scalar times the weight",
+                     fi.loc(), fi.qualname, 'profile:clamped')
+            continue
         r = need_num(ctx, rule_prefix, 'kernel result', res, fi)
         if r.length is None:
             ctx.fail(f'{rule_prefix}.3', f"{m}: kernel returns an array", show(r, 200), fi.loc(), fi.qualname, f"array:{m}")
@@ -126,6 +134,8 @@ def run(ctx):
     check_two_point(ctx)
     c01.check_interval_loop(ctx)
     c01.check_dtype(ctx, rule='C03.5')
+    lits_ = c01.check_tables(ctx)
+    c01.check_public(ctx, lits_)         # which samples are the fixed points (three modes): outside their span nothing is handed to the kernel
     from . import c10
     c10.check_dispatcher(ctx)       # which sample is pinned for a reference point is decided by the neighbour search the strategy name selects
     ctx.trust('field axioms; Abs(c*e)=|c|*Abs(e); Abs(e)=e for e declared positive: x[-1]-x[0]; Pow(1,a)=1, Pow(0,a)=0')
